@@ -4,15 +4,48 @@
 
    Vocabulary (Model/Vault.v): [state] = ledger + asset token + share token (the vault); [step c s call] =
    (state after, outcome), a failing call returns the old state; [run c s calls] = state after a history;
-   [init n0] = freshly constructed vault at ledger n0; [total_assets s] = asset balance of the vault (address
+   [init c n0] = freshly constructed vault at ledger n0; [total_assets s] = asset balance of the vault (address
    V = 0), [total_supply s] = share supply; [c_off c] = decimals offset, so 10 ^ c_off c is the virtual share
    amount.  [wf_call] (Proofs/VaultOps.v) is the boolean input condition: the amount is an i128 and the
    vault's own address is not among the signers (the vault contract cannot sign).  A state is "reachable" if
-   it is [run c (init n0) cs] for calls [cs] satisfying [wf_call].  [exact Floor n d] / [exact Ceil n d]
+   it is [run c (init c n0) cs] for calls [cs] satisfying [wf_call].  [exact Floor n d] / [exact Ceil n d]
    (Proofs/Math.v, C12) are floor / ceiling of the rational n/d. *)
 From SC Require Import Lib.Prelude Lib.Int Lib.Host Model.Math Proofs.Math Model.Vault
-  Proofs.VaultSpec Proofs.VaultToken Proofs.VaultOps Proofs.VaultRate Proofs.VaultTrips Proofs.C05Final
+  Proofs.VaultSpec Proofs.VaultToken Proofs.VaultOps Proofs.VaultRate Proofs.VaultTrips Proofs.VaultLive Proofs.C05Final
   Run.C05 Proofs.C05Monitor.
+
+(* ---- the vault's configuration: the constructor succeeds exactly for an offset <= MAX_DECIMALS_OFFSET whose
+   sum with the asset's decimals fits u32, storing the asset address and the offset; the library setters
+   work once only; on every reachable state both entries are still the constructor's, every further
+   set_asset / set_decimals_offset fails, and total_assets() is the asset token's balance of the vault ---- *)
+Theorem C05_constructor : forall c n0,
+  construct c n0 = if c_max_off c <? c_off c then Fail
+                   else if in_u32 (c_adec c + c_off c) then Ok (init c n0, c_adec c + c_off c) else Fail.
+Proof. exact constructor_final. Qed.
+Print Assumptions C05_constructor.
+
+Theorem C05_setters_once : forall c s,
+  (forall a, vault_set_asset s a = match v_asset s with
+                                   | Some _ => Fail
+                                   | None => Ok {| now := now s; asset := asset s; share := share s; v_asset := Some a; v_off := v_off s |}
+                                   end) /\
+  (forall off, vault_set_decimals_offset c s off =
+               if c_max_off c <? off then Fail
+               else match v_off s with
+                    | Some _ => Fail
+                    | None => Ok {| now := now s; asset := asset s; share := share s; v_asset := v_asset s; v_off := Some off |}
+                    end).
+Proof. exact setters_final. Qed.
+Print Assumptions C05_setters_once.
+
+Theorem C05_config_never_changes : forall c n0 cs, 0 <= c_off c -> forallb wf_call cs = true ->
+  let s := run c (init c n0) cs in
+  v_asset s = Some ASSET_ADDR /\ v_off s = Some (c_off c) /\
+  query_asset s = Ok ASSET_ADDR /\ get_decimals_offset s = c_off c /\
+  total_assets_r s = Ok (total_assets s) /\
+  (forall a, snd (step c s (SetAsset a)) = Fail) /\ (forall off, snd (step c s (SetOffset off)) = Fail).
+Proof. exact config_final. Qed.
+Print Assumptions C05_config_never_changes.
 
 (* ---- each conversion equals the exact rational formula rounded in the stated direction ---- *)
 
@@ -28,9 +61,10 @@ Theorem C05_formula_spec : forall P x num den rd,
 Proof. exact spec_conv_unfold. Qed.
 Print Assumptions C05_formula_spec.
 
-(* for EVERY state and every i128 amount (intermediate products beyond i128 included: the model goes through
-   the C12 model of mul_div_i128 with its 256-bit fallback) *)
-Theorem C05_formula : forall c s x, MIN128 <= x <= MAX128 ->
+(* for EVERY state whose two configuration entries are the constructor's (C05_config_never_changes: all
+   reachable ones) and every i128 amount (intermediate products beyond i128 included: the model goes through the
+   C12 model of mul_div_i128 with its 256-bit fallback); the conversions READ the stored offset and asset *)
+Theorem C05_formula : forall c s x, v_asset s = Some ASSET_ADDR -> v_off s = Some (c_off c) -> MIN128 <= x <= MAX128 ->
   let A := total_assets s in let S := total_supply s in let P := 10 ^ c_off c in
   convert_to_shares c s x = spec_conv P x (S + P) (A + 1) Floor /\
   preview_deposit c s x = spec_conv P x (S + P) (A + 1) Floor /\
@@ -42,7 +76,7 @@ Proof. exact formula_final. Qed.
 Print Assumptions C05_formula.
 
 Theorem C05_formula_max : forall c n0 cs o, 0 <= c_off c -> forallb wf_call cs = true ->
-  let s := run c (init n0) cs in
+  let s := run c (init c n0) cs in
   let A := total_assets s in let S := total_supply s in let P := 10 ^ c_off c in
   max_withdraw c s o = spec_conv P (bal (share s) o) (A + 1) (S + P) Floor /\
   max_redeem s o = bal (share s) o /\ max_deposit o = MAX128 /\ max_mint o = MAX128.
@@ -60,7 +94,7 @@ Print Assumptions C05_floor_ceil_exact.
    round what the user pays up - never by a whole unit - on every reachable state ---- *)
 Theorem C05_rounding_direction : forall c n0 cs x,
   0 <= c_off c -> forallb wf_call cs = true -> MIN128 <= x <= MAX128 ->
-  let s := run c (init n0) cs in
+  let s := run c (init c n0) cs in
   let A := total_assets s in let S := total_supply s in let P := 10 ^ c_off c in
   0 < A + 1 /\ 0 < S + P /\
   (forall q, preview_deposit c s x = Ok q -> q * (A + 1) <= x * (S + P) < (q + 1) * (A + 1)) /\
@@ -75,14 +109,14 @@ Print Assumptions C05_rounding_direction.
    failing calls), from every reachable state; cross-multiplied, denominators are positive ---- *)
 Theorem C05_rate_monotone_step : forall c n0 cs cl,
   0 <= c_off c -> forallb wf_call cs = true -> wf_call cl = true ->
-  let s := run c (init n0) cs in let s' := fst (step c s cl) in let P := 10 ^ c_off c in
+  let s := run c (init c n0) cs in let s' := fst (step c s cl) in let P := 10 ^ c_off c in
   (total_assets s + 1) * (total_supply s' + P) <= (total_assets s' + 1) * (total_supply s + P).
 Proof. exact rate_step_final. Qed.
 Print Assumptions C05_rate_monotone_step.
 
 Theorem C05_rate_monotone : forall c n0 cs1 cs2,
   0 <= c_off c -> forallb wf_call cs1 = true -> forallb wf_call cs2 = true ->
-  let s := run c (init n0) cs1 in let s' := run c (init n0) (cs1 ++ cs2) in let P := 10 ^ c_off c in
+  let s := run c (init c n0) cs1 in let s' := run c (init c n0) (cs1 ++ cs2) in let P := 10 ^ c_off c in
   (total_assets s + 1) * (total_supply s' + P) <= (total_assets s' + 1) * (total_supply s + P).
 Proof. exact rate_history_final. Qed.
 Print Assumptions C05_rate_monotone.
@@ -92,7 +126,7 @@ Print Assumptions C05_rate_monotone.
    returns <= a; deposit a minting sh -> withdraw (at least) a burns >= sh; mint x paying a -> withdraw
    (at least) a burns >= x ---- *)
 Theorem C05_no_round_trip_profit : forall c n0 cs, 0 <= c_off c -> forallb wf_call cs = true ->
-  let s := run c (init n0) cs in
+  let s := run c (init c n0) cs in
   (forall a r f o au s1 sh e1 x r' ow o' au' s2 a' e2,
      wf_call (Deposit a r f o au) = true -> wf_call (Redeem x r' ow o' au') = true ->
      step c s (Deposit a r f o au) = (s1, Ok (sh, e1)) -> x <= sh ->
@@ -117,7 +151,7 @@ Print Assumptions C05_no_round_trip_profit.
    by C05_rate_monotone that growth comes only from donations/yield and rounding dust *)
 Theorem C05_profit_bounded_by_rate : forall c n0 cs0 a r f o au s1 sh e1 cs x r' ow o' au' s3 a' e2,
   0 <= c_off c -> forallb wf_call cs0 = true ->
-  let s := run c (init n0) cs0 in let P := 10 ^ c_off c in
+  let s := run c (init c n0) cs0 in let P := 10 ^ c_off c in
   wf_call (Deposit a r f o au) = true -> forallb wf_call cs = true -> wf_call (Redeem x r' ow o' au') = true ->
   step c s (Deposit a r f o au) = (s1, Ok (sh, e1)) -> x <= sh ->
   step c (run c s1 cs) (Redeem x r' ow o' au') = (s3, Ok (a', e2)) ->
@@ -144,7 +178,7 @@ Print Assumptions C05_preview_exact.
    asset allowance f->o shrinks by [assets] iff o <> f, every other balance / allowance / the ledger is
    unchanged, the operator signed (root and nested call), the event carries the same numbers.
    wd_moves: [shares] burned from [ow], [assets] from the vault to [r], share allowance ow->o shrinks by
-   [shares] iff o <> ow, nothing else changes. ---- *)
+   [shares] iff o <> ow, nothing else changes (the stored asset address and offset included). ---- *)
 Theorem C05_moves_exactly : forall c s cl s' v evs, step c s cl = (s', Ok (v, evs)) ->
   match cl with
   | Deposit a r f o au => dep_moves s s' au evs a v r f o
@@ -171,7 +205,7 @@ Print Assumptions C05_failed_call_no_effect.
 (* ---- assets <= max_withdraw(owner) => the preview succeeds, the required shares are within the owner's
    balance and the assets within the vault's holdings ---- *)
 Theorem C05_withdraw_within_means : forall c n0 cs ow a m, 0 <= c_off c -> forallb wf_call cs = true ->
-  let s := run c (init n0) cs in
+  let s := run c (init c n0) cs in
   max_withdraw c s ow = Ok m -> 0 <= a <= m ->
   exists sh, preview_withdraw c s a = Ok sh /\ 0 <= sh <= bal (share s) ow /\ a <= total_assets s.
 Proof. exact within_means_final. Qed.
@@ -180,7 +214,7 @@ Print Assumptions C05_withdraw_within_means.
 (* ---- and then the owner, signing himself, really gets out: withdraw up to max_withdraw and redeem up to
    max_redeem (once the preview succeeds) never fail, on every reachable state ---- *)
 Theorem C05_within_means_succeeds : forall c n0 cs, 0 <= c_off c -> forallb wf_call cs = true ->
-  let s := run c (init n0) cs in
+  let s := run c (init c n0) cs in
   (forall au a r ow m, auth_root au ow = true -> max_withdraw c s ow = Ok m -> 0 <= a <= m ->
      exists s' sh evs, step c s (Withdraw a r ow ow au) = (s', Ok (sh, evs))) /\
   (forall au x r ow a, auth_root au ow = true -> 0 <= x <= max_redeem s ow -> preview_redeem c s x = Ok a ->
@@ -188,9 +222,28 @@ Theorem C05_within_means_succeeds : forall c n0 cs, 0 <= c_off c -> forallb wf_c
 Proof. exact within_means_succeeds_final. Qed.
 Print Assumptions C05_within_means_succeeds.
 
+(* ---- deposit and mint fail only when they must: on every reachable state they succeed EXACTLY when the
+   preview succeeds, the new share supply fits in i128, the operator signed the call together with the nested
+   asset-token call, [from] holds the assets and - for an operator other than [from] - the allowance covers them
+   (its live_until within the host's maximal TTL, which holds for every allowance that was approved) ---- *)
+Theorem C05_deposit_mint_fail_only_when_must : forall c n0 cs, 0 <= c_off c -> forallb wf_call cs = true ->
+  let s := run c (init c n0) cs in
+  let pull (au : auths) (assets : Z) (f o : addr) :=
+    auth_full au o = true /\ 0 <= assets <= bal (asset s) f /\
+    (o <> f -> 0 <= assets <= allowance (now s) (asset s) f o /\
+               (0 < assets -> snd (allow (asset s) f o) <= now s + c_max_ttl c - 1)) in
+  (forall au a r f o,
+     (exists s' sh evs, step c s (Deposit a r f o au) = (s', Ok (sh, evs))) <->
+     (exists sh, preview_deposit c s a = Ok sh /\ total_supply s + sh <= MAX128 /\ pull au a f o)) /\
+  (forall au x r f o, MIN128 <= x <= MAX128 ->
+     ((exists s' a evs, step c s (MintS x r f o au) = (s', Ok (a, evs))) <->
+      (exists a, preview_mint c s x = Ok a /\ total_supply s + x <= MAX128 /\ pull au a f o))).
+Proof. exact deposit_mint_iff_final. Qed.
+Print Assumptions C05_deposit_mint_fail_only_when_must.
+
 (* ---- share accounting on every reachable state: any set of distinct holders owns at most the supply ---- *)
 Theorem C05_accounting_invariant : forall c n0 cs, 0 <= c_off c -> forallb wf_call cs = true ->
-  let s := run c (init n0) cs in
+  let s := run c (init c n0) cs in
   (forall a, 0 <= bal (share s) a <= total_supply s) /\ 0 <= total_supply s <= MAX128 /\
   (forall l, NoDup l -> sum_over (bal (share s)) l <= total_supply s) /\
   (forall a, 0 <= bal (asset s) a) /\ 0 <= total_assets s <= MAX128.
@@ -222,18 +275,18 @@ Definition ex_calls : list call :=
 (* the hypotheses of the theorems hold for this history, every call succeeds, and rounding really happens *)
 Example C05_reachable_nontrivial :
   forallb wf_call ex_calls = true /\ forallb (wf_call_obs 4%N) ex_calls = true /\ wf_hdr ex_cfg 4%N = true /\
-  let s := run ex_cfg (init 100) ex_calls in
+  let s := run ex_cfg (init ex_cfg 100) ex_calls in
   total_assets s = 113 /\ total_supply s = 132 /\ bal (share s) 1%N = 91 /\ bal (share s) 3%N = 41 /\
   bal (asset s) 2%N = 474 /\ allowance (now s) (asset s) 2%N 1%N = 67 /\
   preview_redeem ex_cfg s 41 = Ok 32 /\ preview_mint ex_cfg s 41 = Ok 33 /\
   max_withdraw ex_cfg s 3%N = Ok 32 /\ preview_withdraw ex_cfg s 32 = Ok 40 /\
-  snd (step ex_cfg (run ex_cfg (init 100) (firstn 6 ex_calls)) (nth 6 ex_calls (Advance 0)))
+  snd (step ex_cfg (run ex_cfg (init ex_cfg 100) (firstn 6 ex_calls)) (nth 6 ex_calls (Advance 0)))
     = Ok (41, [(0%N, 1%N, 2%N, 3%N, 33, 41)]).
 Proof. vm_compute. repeat split. Qed.
 
 (* wide intermediate products: x * (S + P) far beyond i128, the quotient fits; and a quotient that does not fit *)
 Example C05_wide_products :
-  let s := run ex_cfg (init 100) [AMint 1%N (2 ^ 120); Deposit (2 ^ 110) 1%N 1%N 1%N [(1%N, AFull)]] in
+  let s := run ex_cfg (init ex_cfg 100) [AMint 1%N (2 ^ 120); Deposit (2 ^ 110) 1%N 1%N 1%N [(1%N, AFull)]] in
   total_supply s = 2 ^ 110 * 10 /\
   preview_deposit ex_cfg s (2 ^ 100 + 1) = Ok (12676506002282294014967032053770) /\
   preview_redeem ex_cfg s (2 ^ 126) = Ok 8507059173023461586584365185794205286 /\
@@ -244,7 +297,7 @@ Proof. vm_compute. repeat split. Qed.
    (which the contract cannot produce) a deposit from the vault to itself mints unbacked shares and the rate
    drops from 101/1010 to 101/1510 *)
 Example C05_vault_signature_would_break_rate :
-  let s := run ex_cfg (init 100) [AMint 1%N 100; Deposit 100 1%N 1%N 1%N [(1%N, AFull)]] in
+  let s := run ex_cfg (init ex_cfg 100) [AMint 1%N 100; Deposit 100 1%N 1%N 1%N [(1%N, AFull)]] in
   let bad := Deposit 50 1%N 0%N 0%N [(0%N, AFull)] in
   wf_call bad = false /\ snd (step ex_cfg s bad) = Ok (500, [(0%N, 0%N, 0%N, 1%N, 50, 500)]) /\
   total_assets (fst (step ex_cfg s bad)) = total_assets s /\
@@ -259,10 +312,22 @@ Example C05_supply_saturation_locks_redemption :
   let big := (MAX128 - 20) / 10 in
   let cs := [AMint 1%N big; AMint 2%N 100; Deposit big 1%N 1%N 1%N [(1%N, AFull)];
              MintS 17 2%N 2%N 2%N [(2%N, AFull)]; MintS 1 2%N 2%N 2%N [(2%N, AFull)]] in
-  let s := run ex_cfg (init 100) cs in
+  let s := run ex_cfg (init ex_cfg 100) cs in
   forallb wf_call cs = true /\ MAX128 - total_supply s = 9 /\
   max_redeem s 1%N = 170141183460469231731687303715884105700 /\
   preview_redeem ex_cfg s 1 = Fail /\ max_withdraw ex_cfg s 1%N = Fail /\
   snd (step ex_cfg s (Redeem 1 1%N 1%N 1%N [(1%N, ARoot)])) = Fail /\
   snd (step ex_cfg s (Withdraw 1 1%N 1%N 1%N [(1%N, ARoot)])) = Fail.
+Proof. vm_compute. repeat split. Qed.
+
+(* the conversions read the STORED offset and asset address: on a (non-reachable) state whose offset entry is
+   missing they are priced with offset 0, with a missing asset address they trap *)
+Example C05_conversions_read_stored_configuration :
+  let c := {| c_off := 3; c_max_off := 10; c_adec := 7; c_max_ttl := 6312000 |} in
+  let s := run c (init c 100) [AMint 1%N 1000; Deposit 10 1%N 1%N 1%N [(1%N, AFull)]] in
+  let lost_off := {| now := now s; asset := asset s; share := share s; v_asset := v_asset s; v_off := None |} in
+  let lost_asset := {| now := now s; asset := asset s; share := share s; v_asset := None; v_off := v_off s |} in
+  preview_deposit c s 10 = Ok 10000 /\ preview_deposit c lost_off 10 = Ok 9091 /\ preview_deposit c lost_asset 10 = Fail /\
+  vault_decimals c s = Ok 10 /\ vault_decimals c lost_off = Ok 7 /\
+  snd (step c lost_off (SetOffset 9)) = Ok (0, []).
 Proof. vm_compute. repeat split. Qed.
